@@ -5,6 +5,7 @@ from pyvc.contract import contract
 from pyvc.ghost import ite, conj, disj, implies, iff
 from kernpy.core.base_antlr_spine_parser_listener import BaseANTLRSpineParserListener
 from kernpy.core.tokens import TokenCategory, Subtoken
+from contracts.shapes import mk_note
 
 L = 'kernpy.core.base_antlr_spine_parser_listener.BaseANTLRSpineParserListener.'
 A_SHAPES = 'A-antlr-shapes: the contexts passed to the listener have the accessors of kern/kernSpineParser.g4 (getText, child accessors returning a context, a list of contexts, or None)'
@@ -206,3 +207,308 @@ class exit_note:
         if self.in_chord:
             return conj(self.token is None, len(self.chord_tokens) == 1)
         return self.chord_tokens is None
+
+
+@contract(L + 'exitRest', props=['C01', 'C03'])
+class exit_rest:
+    """C03 (a rest keeps its duration marks and signifiers): the rest's pitch-duration sub-tokens are the collected duration marks
+    followed by one 'r' of category REST; its decorations are the collected ones; its text is the cell's."""
+    assumes = (A_SHAPES,)
+
+    def inputs(g):
+        return {'self': mk_busy_listener(g), 'ctx': NoteCtx(g.str_sym('text', ['4r', '8.r;']), None)}
+
+    def modifies_objs(self):
+        return [self, self.chord_tokens]
+
+    def post_sub_tokens(self, ctx):
+        n = built_note(self)
+        pd = n.pitch_duration_subtokens
+        if len(pd) != len(self.duration_subtokens) + 1:
+            return False
+        return conj(type(n).__name__ == 'NoteRestToken', n.encoding == ctx.text, pd[:-1] == self.duration_subtokens,
+                    pd[-1].encoding == 'r', pd[-1].category == TokenCategory.REST, n.decoration_subtokens is self.decorations)
+
+    def post_placed(self):
+        if self.in_chord:
+            return conj(self.token is None, len(self.chord_tokens) == 1)
+        return self.chord_tokens is None
+
+
+def decoration_added(self, before, text):
+    """the decoration list after a decoration with `text` was read: unchanged if an entry has that text, else one new DECORATION entry"""
+    seen = len([d for d in before if d.encoding == text]) > 0
+    if seen:
+        return self.decorations == before
+    if len(self.decorations) != len(before) + 1:
+        return False
+    return conj(self.decorations[-1].encoding == text, self.decorations[-1].category == TokenCategory.DECORATION, self.decorations[:-1] == before)
+
+
+@contract(L + 'exitNoteDecoration', props=['C01', 'C03'])
+class exit_note_decoration:
+    """C01 (canonical: repetition does not matter) / C03 (a note keeps exactly its set of signifiers): every signifier text read for
+    the note is in the decoration list exactly once, in the order of first occurrence."""
+    assumes = (A_SHAPES,)
+
+    def inputs(g):
+        decos = mk_decoration_list(g)
+        return {'self': mk_listener(g, decos), 'ctx': Text(g.str_sym('text', ['L', '&(', '(', 'yy', 'y', '/'])), '_before': decos.copy()}
+
+    def modifies_objs(self):
+        return [self.decorations]
+
+    def post_signifier_kept_once(self, ctx, before):
+        return decoration_added(self, before, ctx.text)
+
+
+@contract(L + 'exitRestDecoration', props=['C01', 'C03'])
+class exit_rest_decoration:
+    """as for notes, except that the stem marks '/' and '\\' are dropped from rests (they make no sense on a rest: the grammar comment
+    says so and the importer discards them)"""
+    assumes = (A_SHAPES,)
+
+    def inputs(g):
+        decos = mk_decoration_list(g)
+        return {'self': mk_listener(g, decos), 'ctx': Text(g.str_sym('text', [';', '/', '\\', '(', 'q', '.'])), '_before': decos.copy()}
+
+    def modifies_objs(self):
+        return [self.decorations]
+
+    def post_signifier_kept_once_stems_dropped(self, ctx, before):
+        if disj(ctx.text == '/', ctx.text == '\\'):
+            return self.decorations == before
+        return decoration_added(self, before, ctx.text)
+
+
+@contract(L + 'enterChord', props=['C03'])
+class enter_chord:
+    """a chord starts with no notes"""
+    assumes = (A_SHAPES,)
+
+    def inputs(g):
+        return {'self': mk_busy_listener(g), 'ctx': NoteCtx(g.str_sym('text', ['4c 4e']), None)}
+
+    def modifies_objs(self):
+        return [self]
+
+    def post_empty_chord(self):
+        return conj(self.in_chord == True, len(self.chord_tokens) == 0)
+
+
+@contract(L + 'exitChord', props=['C01', 'C03'])
+class exit_chord:
+    """C03 (no note of a chord is lost): the cell's token is a ChordToken over exactly the notes read since enterChord, in order,
+    with the cell's text"""
+    assumes = (A_SHAPES,)
+
+    def inputs(g):
+        notes = g.mlist('notes', lambda e: mk_note(e, 'n'))
+        lst = g.new(BaseANTLRSpineParserListener, {'token': None, 'first_chord_element': None, 'chord_tokens': notes, 'duration_subtokens': [],
+                                                   'diatonic_pitch_and_octave_subtoken': None, 'accidental_subtoken': None, 'decorations': [],
+                                                   'in_chord': True, 'measure_start_rows': [], 'last_bounding_box': None}, ())
+        return {'self': lst, 'ctx': NoteCtx(g.str_sym('text', ['4c 4e', '8r 8g']), None)}
+
+    def modifies_objs(self):
+        return [self]
+
+    def post_chord_over_the_notes(self, ctx):
+        return conj(type(self.token).__name__ == 'ChordToken', self.token.encoding == ctx.text, self.token.category == TokenCategory.CHORD,
+                    self.token.notes_tokens is self.chord_tokens, self.in_chord == False)
+
+
+SIMPLE_EXITS = {'exitEmpty': ('SimpleToken', TokenCategory.EMPTY), 'exitNonVisualTandemInterpretation': ('SimpleToken', TokenCategory.OTHER),
+                'exitVisualTandemInterpretation': ('SimpleToken', TokenCategory.ENGRAVED_SYMBOLS), 'exitOtherContextual': ('SimpleToken', TokenCategory.OTHER_CONTEXTUAL),
+                'exitStructural': ('SimpleToken', TokenCategory.STRUCTURAL), 'exitClef': ('ClefToken', TokenCategory.CLEF),
+                'exitKeySignature': ('KeySignatureToken', TokenCategory.KEY_SIGNATURE), 'exitKeyCancel': ('KeySignatureToken', TokenCategory.KEY_SIGNATURE),
+                'exitKey': ('KeyToken', TokenCategory.KEY_TOKEN), 'exitTimeSignature': ('TimeSignatureToken', TokenCategory.TIME_SIGNATURE),
+                'exitMeterSymbol': ('MeterSymbolToken', TokenCategory.METER_SYMBOL), 'exitInstrument': ('InstrumentToken', TokenCategory.INSTRUMENTS)}
+
+
+def verbatim(self, ctx, which):
+    cls_name, cat = SIMPLE_EXITS[which]
+    return conj(type(self.token).__name__ == cls_name, self.token.encoding == ctx.text, self.token.category == cat, self.token.hidden == False)
+
+
+def text_cell(g):
+    return {'self': mk_listener(g, []), 'ctx': Text(g.str_sym('text', ['.', '*clefG2', '*k[f#]', '*M3/4', '*met(c)', '*C:', '*Ipiano', '*staff1', '*>A', '*']))}
+
+
+@contract(L + 'exitEmpty', props=['C03'])
+class verbatim_exitEmpty:
+    """C03 (every non-note cell is reproduced verbatim): the token carries the text of the cell unchanged"""
+    assumes = (A_SHAPES,)
+
+    def inputs(g):
+        return text_cell(g)
+
+    def modifies_objs(self):
+        return [self]
+
+    def post_verbatim(self, ctx):
+        return verbatim(self, ctx, 'exitEmpty')
+
+
+@contract(L + 'exitNonVisualTandemInterpretation', props=['C03'])
+class verbatim_exitNonVisualTandemInterpretation:
+    """C03 (every non-note cell is reproduced verbatim): the token carries the text of the cell unchanged"""
+    assumes = (A_SHAPES,)
+
+    def inputs(g):
+        return text_cell(g)
+
+    def modifies_objs(self):
+        return [self]
+
+    def post_verbatim(self, ctx):
+        return verbatim(self, ctx, 'exitNonVisualTandemInterpretation')
+
+
+@contract(L + 'exitVisualTandemInterpretation', props=['C03'])
+class verbatim_exitVisualTandemInterpretation:
+    """C03 (every non-note cell is reproduced verbatim): the token carries the text of the cell unchanged"""
+    assumes = (A_SHAPES,)
+
+    def inputs(g):
+        return text_cell(g)
+
+    def modifies_objs(self):
+        return [self]
+
+    def post_verbatim(self, ctx):
+        return verbatim(self, ctx, 'exitVisualTandemInterpretation')
+
+
+@contract(L + 'exitOtherContextual', props=['C03'])
+class verbatim_exitOtherContextual:
+    """C03 (every non-note cell is reproduced verbatim): the token carries the text of the cell unchanged"""
+    assumes = (A_SHAPES,)
+
+    def inputs(g):
+        return text_cell(g)
+
+    def modifies_objs(self):
+        return [self]
+
+    def post_verbatim(self, ctx):
+        return verbatim(self, ctx, 'exitOtherContextual')
+
+
+@contract(L + 'exitStructural', props=['C03'])
+class verbatim_exitStructural:
+    """C03 (every non-note cell is reproduced verbatim): the token carries the text of the cell unchanged"""
+    assumes = (A_SHAPES,)
+
+    def inputs(g):
+        return text_cell(g)
+
+    def modifies_objs(self):
+        return [self]
+
+    def post_verbatim(self, ctx):
+        return verbatim(self, ctx, 'exitStructural')
+
+
+@contract(L + 'exitClef', props=['C03'])
+class verbatim_exitClef:
+    """C03 (every non-note cell is reproduced verbatim): the token carries the text of the cell unchanged"""
+    assumes = (A_SHAPES,)
+
+    def inputs(g):
+        return text_cell(g)
+
+    def modifies_objs(self):
+        return [self]
+
+    def post_verbatim(self, ctx):
+        return verbatim(self, ctx, 'exitClef')
+
+
+@contract(L + 'exitKeySignature', props=['C03'])
+class verbatim_exitKeySignature:
+    """C03 (every non-note cell is reproduced verbatim): the token carries the text of the cell unchanged"""
+    assumes = (A_SHAPES,)
+
+    def inputs(g):
+        return text_cell(g)
+
+    def modifies_objs(self):
+        return [self]
+
+    def post_verbatim(self, ctx):
+        return verbatim(self, ctx, 'exitKeySignature')
+
+
+@contract(L + 'exitKeyCancel', props=['C03'])
+class verbatim_exitKeyCancel:
+    """C03 (every non-note cell is reproduced verbatim): the token carries the text of the cell unchanged"""
+    assumes = (A_SHAPES,)
+
+    def inputs(g):
+        return text_cell(g)
+
+    def modifies_objs(self):
+        return [self]
+
+    def post_verbatim(self, ctx):
+        return verbatim(self, ctx, 'exitKeyCancel')
+
+
+@contract(L + 'exitKey', props=['C03'])
+class verbatim_exitKey:
+    """C03 (every non-note cell is reproduced verbatim): the token carries the text of the cell unchanged"""
+    assumes = (A_SHAPES,)
+
+    def inputs(g):
+        return text_cell(g)
+
+    def modifies_objs(self):
+        return [self]
+
+    def post_verbatim(self, ctx):
+        return verbatim(self, ctx, 'exitKey')
+
+
+@contract(L + 'exitTimeSignature', props=['C03'])
+class verbatim_exitTimeSignature:
+    """C03 (every non-note cell is reproduced verbatim): the token carries the text of the cell unchanged"""
+    assumes = (A_SHAPES,)
+
+    def inputs(g):
+        return text_cell(g)
+
+    def modifies_objs(self):
+        return [self]
+
+    def post_verbatim(self, ctx):
+        return verbatim(self, ctx, 'exitTimeSignature')
+
+
+@contract(L + 'exitMeterSymbol', props=['C03'])
+class verbatim_exitMeterSymbol:
+    """C03 (every non-note cell is reproduced verbatim): the token carries the text of the cell unchanged"""
+    assumes = (A_SHAPES,)
+
+    def inputs(g):
+        return text_cell(g)
+
+    def modifies_objs(self):
+        return [self]
+
+    def post_verbatim(self, ctx):
+        return verbatim(self, ctx, 'exitMeterSymbol')
+
+
+@contract(L + 'exitInstrument', props=['C03'])
+class verbatim_exitInstrument:
+    """C03 (every non-note cell is reproduced verbatim): the token carries the text of the cell unchanged"""
+    assumes = (A_SHAPES,)
+
+    def inputs(g):
+        return text_cell(g)
+
+    def modifies_objs(self):
+        return [self]
+
+    def post_verbatim(self, ctx):
+        return verbatim(self, ctx, 'exitInstrument')
